@@ -23,7 +23,9 @@ from pyvc.core import ctx, OutOfSubset
 
 PROP = 'C14'
 TRF = 'loki/ir/transformer.py'
-T = Theory('transformer', [])
+import builtins as _bi
+# one z3 theory per process: when another property's module shares these specs (C03), it hands its theory over
+T = getattr(_bi, '_PYVC_SHARED_THEORY', None) or Theory('transformer', [])
 
 
 class Source:
@@ -268,6 +270,44 @@ def spec_visit_node(case, nkids, scoped=False):
     return _mk(qual, setup, post, run, variant='%s,%d children' % (case, nkids))
 
 
+def spec_rebuild(kinds):
+    """Transformer._rebuild(o, children): kinds = per child 'n' (a rebuilt node), 'N' (None), 't' (a tuple of two nodes)"""
+    def setup(spec):
+        c = ctx()
+        log = []
+        src = Source(mk_bool(c.fresh(z3.BoolSort(), 'source_valid')), log)
+        o = Node('o', tuple(Node('old_child%d' % i, (), log) for i in range(len(kinds))), log, src)   # arity is kept
+        kids = []
+        for i, k in enumerate(kinds):
+            kids.append({'n': Node('new%d' % i, (), log), 'N': None,
+                         't': (Node('new%da' % i, (), log), Node('new%db' % i, (), log))}[k])
+        inplace, inval = _flags()
+        me = SelfT({}, inplace, inval)
+        env = {'me': me, 'o': o, 'kids': tuple(kids), 'src': src, 'log': log, 'valid0': src.valid, 'old_kids': o.kids}
+        return (env,), {}, env
+
+    def run(env):
+        return REBUILD(env['me'], env['o'], env['kids'])
+
+    def post(env, r):
+        B = z3.BoolVal
+        me, o, src, kids = env['me'], env['o'], env['src'], env['kids']
+        inplace, inval = as_bool_term(me.inplace), as_bool_term(me.invalidate_source)
+        has_node = any(k in 'nt' for k in kinds)
+        must_invalidate = z3.And(inval, as_bool_term(env['valid0']), B(has_node))
+        rs = getattr(r, 'source', None)
+        invalidated_clone = (rs is not src and getattr(rs, 'cloned_from', None) is src and rs.valid is False)
+        src_events = [e for e in env['log'] if e[0] == 'invalidate' and e[1] is src]
+        fresh = isinstance(r, Node) and r is not o and getattr(r, 'built_from', None) is o and r.kids == kids
+        same = r is o and o.kids == kids
+        return [('result-has-the-given-children', z3.If(inplace, B(same), B(fresh))),
+                ('source-invalidated-when-a-child-node-was-rebuilt', z3.Implies(must_invalidate, B(invalidated_clone))),
+                ('source-kept-otherwise', z3.Implies(z3.Not(must_invalidate), B(rs is src))),
+                ('original-source-object-never-invalidated', B(not src_events)),
+                ('original-untouched-unless-inplace', z3.Or(inplace, B(o.kids == env['old_kids'] and o.source is src)))]
+    return _mk('Transformer._rebuild', setup, post, run, variant='children %s' % (kinds or 'none'))
+
+
 def spec_visit_tuple(shape):
     """shape: results of visiting the spliced elements: n = node, N = None, e = empty tuple, t = a tuple of nodes"""
     def setup(spec):
@@ -343,6 +383,8 @@ def specs(tier='quick'):
                 out.append(spec_visit_node(case, n, scoped))
     for shape in ('', 'n', 'N', 'e', 't', 'nN', 'Nn', 'ne', 'tn', 'nNe', 'Ntn', 'nnn'):
         out.append(spec_visit_tuple(shape))
+    for kinds in ('', 'n', 'N', 't', 'nN', 'Nn', 'NN', 'tn'):
+        out.append(spec_rebuild(kinds))
     rec = [spec_visit_record(True), spec_visit_record(False)]
     for s in rec:
         s._super = _super_hook
